@@ -3,7 +3,7 @@
     `DiffBaseStorage.build` (+ the overrides in Annotations/Status/Multi diff-base storages),
     `ProgressStorage.clear` (Annotations/Status/NoWriteStatus/Multi/Smart),
     `StorageKeyMarkingConvention._detect_marked_prefixes`,
-    `StorageKeyFormingConvention.make_keys` (+ `CollisionEvadingConvention.mark_key`),
+    `StorageKeyFormingConvention.make_keys` (+ `make_edged_name`, `CollisionEvadingConvention.mark_key`),
     `StorageStanzaCleaner.remove_annotations / remove_empty_stanzas`, `dicts.cherrypick`.
 
   Errors the code raises are part of the result (`Err`). Inputs the model does not describe
@@ -62,8 +62,9 @@ def underPrefix (p : List Char) (key : String) : Bool := (p ++ ['/']).isPrefixOf
 def keepAnnotation (prefixes : List (List Char)) (key : String) : Bool :=
   !(prefixes.any (fun p => underPrefix p key)) && key != lastApplied
 
+/-- `make_safe_key`: `/`→`.`, `<`→`_`, `>`→`_`, `:`→`_` (the last since kopf f95b306). -/
 def safeKey (s : List Char) : List Char :=
-  s.map (fun c => if c = '/' then '.' else if c = '<' then '_' else if c = '>' then '_' else c)
+  s.map (fun c => if c = '/' then '.' else if c = '<' then '_' else if c = '>' then '_' else if c = ':' then '_' else c)
 
 /-- Python `s[:n]` for a possibly negative `n`. -/
 def pySliceTo (s : List Char) (n : Int) : List Char :=
@@ -77,16 +78,44 @@ def suffixOf (h : Hashes) (key : List Char) : Except Err (List Char) :=
   | some kv => .ok kv.2.toList
   | none => .error .unmodelled
 
+/-- `_is_alnum` of `make_edged_name`: `c.isascii() and c.isalnum()` (`Char.isAlphanum` is ASCII-only). -/
+def headAlnum : List Char → Bool
+  | [] => false
+  | c :: _ => c.isAlphanum
+
+def lastAlnum (s : List Char) : Bool :=
+  match s.getLast? with
+  | none => false
+  | some c => c.isAlphanum
+
+/-- `make_edged_name(name, key=key, max_length=maxLen)` (kopf c2cffd8), statement by statement: a name
+    that begins and ends with an ASCII alphanumeric is returned untouched; otherwise the empty name
+    becomes `x`, a bad first / last character is replaced by `x`, and — unless the name already ends
+    with the hash suffix of the id or of its safe form — it is cut to `max(1, max_length - len(suffix))`
+    characters and the suffix of the ORIGINAL id is appended. -/
+def edgedName (h : Hashes) (name key : List Char) (maxLen : Int) : Except Err (List Char) :=
+  if headAlnum name && lastAlnum name then pure name else do
+  let n0 := if name.isEmpty then ['x'] else name
+  let n1 := if headAlnum n0 then n0 else 'x' :: n0.tail
+  let n2 := if lastAlnum n1 then n1 else n1.dropLast ++ ['x']
+  let suffix ← suffixOf h key
+  let suffix2 ← suffixOf h (safeKey key)
+  if suffix.isSuffixOf n2 || suffix2.isSuffixOf n2 then pure n2
+  else pure (n2.take (max 1 (maxLen - (suffix.length : Int))).toNat ++ suffix)
+
 def makeV2Key (h : Hashes) (prefix_ key : List Char) : Except Err (List Char) := do
   let suffix ← if key.length > 63 then suffixOf h key else pure []
   let keyLimit := 63 - suffix.length      -- Nat subtraction = max(0, …)
-  pure (prefix_ ++ ['/'] ++ (safeKey key).take keyLimit ++ suffix)
+  let name ← edgedName h ((safeKey key).take keyLimit ++ suffix) key 63
+  pure (prefix_ ++ ['/'] ++ name)
 
 def makeV1Key (h : Hashes) (prefix_ key : List Char) : Except Err (List Char) := do
   let safe := safeKey key
   let pfx := prefix_ ++ ['/']
   let suffix ← if (safe.length : Int) ≤ 63 - (pfx.length : Int) then pure [] else suffixOf h safe
-  pure (pfx ++ pySliceTo safe (63 - (pfx.length : Int) - (suffix.length : Int)) ++ suffix)
+  let name ← edgedName h (pySliceTo safe (63 - (pfx.length : Int) - (suffix.length : Int)) ++ suffix) key
+    (63 - (pfx.length : Int))
+  pure (pfx ++ name)
 
 /-- `make_keys(key)` after marking: V2 first, then V1 when enabled, when it can fit at all
     (`len(prefix + '/') + len(make_suffix('')) < 63`, kopf e916847) and when different. -/
